@@ -426,6 +426,19 @@ for rnd in range(2):
         verdict_case("previous-skr-replaced", successor(cur, zskpol, n=2, rid=f"next-{tag}{rnd}"), ksrxml.render_skr(cur), 2, 2, expect="OK")
         verdict_case("previous-skr-replaced-stale-successor", successor(other, zskpol, n=2, rid=f"stale-{tag}{rnd}"), ksrxml.render_skr(cur), 2, 2, expect="not-OK")
 
+# the clock is read when the upload arrives, not when the receiver was started: KSRs for a later year, judged at that time
+HZ = {"signature_check_expire_horizon": True, "signature_horizon_days": 180}
+_now0 = NOW
+for year in (2027, 2030):
+    t0 = dt.datetime(year, 1, 1, tzinfo=UTC)
+    skf = prev_skr_at(t0, f"prev-{year}", 2, zskpol)
+    okf = successor(skf, zskpol, n=2, rid=f"next-{year}")
+    last_exp = okf["bundles"][-1]["exp"]
+    for now_, exp_ in ((t0 + D(days=15), "OK"), (last_exp - D(seconds=1), None), (last_exp + D(days=1), "not-OK"), (last_exp - D(days=181), "not-OK")):
+        NOW = now_
+        verdict_case("clock-at-upload", okf, ksrxml.render_skr(skf), 2, 2, extra_policy=HZ, expect=exp_)
+NOW = _now0
+
 for rnd in range(3 if not THOROUGH else 12):
     zskpol = ksrxml.default_zsk_policy()
     n_prev, n = R.choice([2, 3, 9]), R.choice([2, 3])
